@@ -142,6 +142,29 @@ Definition fd_check (cp cm : circuit) (ys : list asg) (inv2h : C) (g : list (lis
                  end) (combine ys g))
   else 0.
 
+(* chi-square statistic of observed counts against the model's exact probabilities (C15):
+   sum (obs - N p)^2 / (N p) <= threshold, and no observation where p = 0 *)
+Definition chi2_check (c : circuit) (xs : list asg) (counts : list Z) (N : Z) (thr : C) : nat :=
+  let c := prep c in
+  match omap (fun y => match den c y with Some [[p]] => Some p | _ => None end) xs with
+  | None => 2
+  | Some ps =>
+      if length ps =? length counts then
+        let n := cofZ N in
+        let terms := map2 (fun p k =>
+             let e := cmul n p in
+             if Qle_bool (fst e) (Q2Qc 0) then (if Z.eqb k 0 then Some c0 else None)
+             else let d := csub (cofZ k) e in Some (cdiv (cmul d d) e)) ps counts in
+        match omap (fun x => x) terms with
+        | None => 0                          (* a sample with zero probability *)
+        | Some ts =>
+            let stat := fold_left cadd ts c0 in
+            let tot := fold_left cadd ps c0 in
+            if cclose (Q2Qc (1 # 1000000)) (Q2Qc (1 # 1000000)) tot c1 then b2n (Qle_bool (fst stat) (fst thr)) else 3
+        end
+      else 0
+  end.
+
 Fixpoint NoDup_b (l : list nat) : bool :=
   match l with [] => true | x :: r => negb (existsb (Nat.eqb x) r) && NoDup_b r end.
 
